@@ -10,6 +10,7 @@ package vmc
 
 import (
 	"encoding/json"
+	mrand "math/rand"
 	"fmt"
 	"hash/fnv"
 	"os"
@@ -118,6 +119,9 @@ func (x *X) Choose(n int, kind Kind, label string) int {
 func (x *X) ChooseCost(n int, label string, costs []int) int {
 	pos := len(x.choices)
 	c := 0
+	if x.e.freerun && n > 1 {
+		c = mrand.Intn(n)
+	}
 	if pos < len(x.prefix) {
 		c = x.prefix[pos]
 		if pos < len(x.expect) {
@@ -213,7 +217,7 @@ func (x *X) Outcome(format string, args ...any) { x.outcome = fmt.Sprintf(format
 // reached with no more deviations and at no greater depth; the harness must then return.
 // While replaying the prefix it always reports false.
 func (x *X) Seen(key string) bool {
-	if x.Replaying() {
+	if x.Replaying() || x.e.freerun {
 		return false
 	}
 	if x.seenReplay != nil {
@@ -247,6 +251,7 @@ type explorer struct {
 	tier           string
 	budget         int
 	noPrune        bool
+	freerun bool // advisory race pass: random choices, scheduler inactive, no pruning
 	maxPoints      int
 	deadline       time.Time
 	timedOut       bool
@@ -402,6 +407,13 @@ func trimStack(b []byte) string {
 
 func (e *explorer) account(cfg Cfg, x *X) {
 	e.execs++
+	if d := os.Getenv("VMC_DUMP"); d != "" && d == strconv.Itoa(x.cfgIdx) {
+		var ls []string
+		for i, p := range x.points {
+			ls = append(ls, fmt.Sprintf("%d/%d:%s", x.choices[i], p.n, p.label))
+		}
+		fmt.Printf("DUMP %v pruned=%v %s\n", x.choices, x.pruned, strings.Join(ls, " ; "))
+	}
 	np := len(x.choices) - len(x.prefix)
 	if len(x.prefix) > 0 {
 		np++
@@ -449,10 +461,23 @@ func (e *explorer) checkDeterminism(cfgIdx int, cfg Cfg, x *X) {
 		sr = []bool{}
 	}
 	y := e.runOneSeen(cfgIdx, cfg, x.prefix, x.expect, false, sr)
+	differs := func() bool {
+		return y.obsHash != x.obsHash || len(y.choices) != len(x.choices) || len(y.fails) != len(x.fails)
+	}
+	// a difference must persist: see the retry rule in explore
+	for retry := 0; retry < 4 && (y.nondet != "" || differs()); retry++ {
+		if y.nondet != "" {
+			if n := len(e.nondet); n > 0 {
+				e.nondet = e.nondet[:n-1]
+			}
+		}
+		Count("determinism_recheck_retries", 1)
+		y = e.runOneSeen(cfgIdx, cfg, x.prefix, x.expect, false, sr)
+	}
 	if y.nondet != "" {
 		return
 	}
-	if y.obsHash != x.obsHash || len(y.choices) != len(x.choices) || len(y.fails) != len(x.fails) {
+	if differs() {
 		e.nondet = append(e.nondet, fmt.Sprintf("config %q choices %v: re-execution differs (obs %x vs %x, points %d vs %d, fails %d vs %d)",
 			cfg.Name, x.choices, x.obsHash, y.obsHash, len(x.choices), len(y.choices), len(x.fails), len(y.fails)))
 	}
@@ -469,6 +494,17 @@ func (e *explorer) explore(cfgIdx int, cfg Cfg, prefix []int, expect []point, le
 		return
 	}
 	x := e.runOne(cfgIdx, cfg, prefix, expect, false)
+	// A replay prefix that meets another menu is retried a few times before it is reported: where the
+	// implementation itself resolves a select with two ready cases at random (DESIGN.md 0.3) the same
+	// prefix can legitimately lead to another menu; a genuine harness nondeterminism persists and is
+	// reported as before. Retries are counted (divergent_retries) and shown with the evidence.
+	for retry := 0; x.nondet != "" && retry < 6; retry++ {
+		if n := len(e.nondet); n > 0 {
+			e.nondet = e.nondet[:n-1]
+		}
+		Count("divergent_retries", 1)
+		x = e.runOne(cfgIdx, cfg, prefix, expect, false)
+	}
 	if x.nondet != "" {
 		return
 	}
@@ -592,6 +628,7 @@ func Main(t *testing.T, h Harness) {
 		states: map[uint64]struct{}{}, stateKeys: map[string][]seenEntry{}, outcomes: map[string]int64{},
 		failSigs: map[string]int{}, shardN: 1, sampleEvery: 1000}
 	e.noPrune = os.Getenv("VMC_NOPRUNE") == "1"
+	e.freerun = os.Getenv("VMC_FREERUN") == "1"
 	if s := os.Getenv("VMC_SHARD"); s != "" {
 		fmt.Sscanf(s, "%d/%d", &e.shardI, &e.shardN)
 	}
@@ -611,6 +648,27 @@ func Main(t *testing.T, h Harness) {
 		return
 	}
 
+	if e.freerun {
+		// advisory pass for the race detector (binary built with -race, GOMAXPROCS > 1): the
+		// cooperative scheduler is inactive, choices are random; this is sampling and decides nothing
+		n := envInt("VMC_FREERUN_N", 20)
+		maxCfg := envInt("VMC_FREERUN_CFGS", 200)
+		for ci, cfg := range cfgs {
+			if ci >= maxCfg || time.Now().After(e.deadline) {
+				break
+			}
+			e.budget = cfg.Budget
+			for i := 0; i < n; i++ {
+				x := e.runOne(ci, cfg, nil, nil, false)
+				e.account(cfg, x)
+			}
+		}
+		fmt.Printf("FREERUN %s executions=%d oracle-failures=%d\n", h.ID, e.execs, e.totalFails())
+		for sig, cnt := range e.failSigs {
+			fmt.Printf("FREERUN-FAILURE %s x%d\n", sig, cnt)
+		}
+		return
+	}
 	for ci, cfg := range cfgs {
 		if !h.ShardSubtree && e.shardN > 1 && ci%e.shardN != e.shardI {
 			continue
@@ -624,7 +682,11 @@ func Main(t *testing.T, h Harness) {
 		// a fresh visited set per configuration: keys are only comparable within one world
 		e.stateKeys = map[string][]seenEntry{}
 		own := !h.ShardSubtree || e.shardN == 1 || e.shardI == 0
+		before := e.execs
 		e.explore(ci, cfg, nil, nil, 0, own)
+		if os.Getenv("VMC_PERCFG") == "1" {
+			fmt.Printf("PERCFG %d %q %d\n", ci, cfg.Name, e.execs-before)
+		}
 		res.States += len(e.stateKeys)
 		if e.timedOut {
 			break
